@@ -162,16 +162,17 @@ func runC17(t *testing.T, tier string) int {
 		}
 
 		labels := []map[string]string{nil, {"a": "1"}, {"a": "1", "b": "", "c": "é"}}
-		rets := []time.Duration{0, 1, 1500 * time.Millisecond, 10 * time.Minute, 87600 * time.Hour}
+		rets := []time.Duration{0, 1, 1500 * time.Millisecond, 10 * time.Minute, 24 * time.Hour, 87600 * time.Hour}
 		ttls := []time.Duration{0, 1, 24 * time.Hour, 87600 * time.Hour}
 		filters := []string{"", "attributes:x", `attributes."a b" = "v" AND NOT hasPrefix(attributes.k,"p")`}
 		type rp struct{ min, max time.Duration }
-		retries := []rp{{0, 0}, {time.Second, 0}, {0, 30 * time.Second}, {1500 * time.Millisecond, time.Hour}}
+		// absent, each bound alone, both, both EQUAL (constant backoff), adjacent (max = min + 1ns), min above the default max
+		retries := []rp{{0, 0}, {time.Second, 0}, {0, 30 * time.Second}, {1500 * time.Millisecond, time.Hour}, {10 * time.Second, 10 * time.Second}, {10 * time.Second, 10*time.Second + 1}, {20 * time.Minute, 0}}
 		type dlp struct {
 			on bool
 			n  int32
 		}
-		dls := []dlp{{false, 0}, {true, 0}, {true, 7}}
+		dls := []dlp{{false, 0}, {true, 0}, {true, 1}, {true, 7}}
 		pushes := []string{"", "http://127.0.0.1:1/push"}
 		n := 0
 		for li, lab := range labels {
